@@ -424,9 +424,14 @@ Fixpoint probe_run (k : bool) (n : nat) (sb : Z) (run : nat) (i : Z) (tr : list 
             else probe_run k n s' 0 (i + 1) r
           else probe_run k n s' run (i + 1) r
       | TDet false (DRecord a b) =>
-          probe_run k n s' (if a_pub a && akind k a && b then 0%nat else run) (i + 1) r
+          (* "a single success while blocked clears the state" *)
+          if a_pub a && akind k a && b && (sb =? 2) && (s' =? 2)
+          then [ERR_PROPERTY; i; 78; boolz k]
+          else probe_run k n s' (if a_pub a && akind k a && b then 0%nat else run) (i + 1) r
       | TDirect w b =>
-          probe_run k n s' (if Bool.eqb w (negb k) && b then 0%nat else run) (i + 1) r
+          if Bool.eqb w (negb k) && b && (sb =? 2) && (s' =? 2)
+          then [ERR_PROPERTY; i; 78; boolz k]
+          else probe_run k n s' (if Bool.eqb w (negb k) && b then 0%nat else run) (i + 1) r
       | _ => probe_run k n s' run (i + 1) r
       end
   end.
